@@ -69,6 +69,9 @@ extern int mpt_string_dest(MPT_STRUCT(strdest) *addr, int sep, const char *descr
 			break;
 		
 		descr++; pos++;
+		/* separator before space ends element (same as for empty field) */
+		if (isspace(*descr))
+			break;
 	}
 	return pos;
 }
